@@ -26,20 +26,7 @@ TRANSLATORS = ["T-opcodes", "T-consts", "T-callmsg"]
 
 # Genuine defects of halmos re-derived by this check on the unchanged tree (same format as
 # known_findings.json entries; the coordinator decides between a fix: commit and that file).
-KNOWN = [
-    {"id": "C09-F11-static-value-call", "property": "C09",
-     "what": "a CALL with non-zero value inside a static (STATICCALL) frame is executed instead of halting the frame: send_callvalue has `# TODO: revert if context is static` (sevm.py SEVM.call)",
-     "match": {"defect_contains": "static-value-call"}},
-    {"id": "C09-callcode-insufficient-funds", "property": "C09",
-     "what": "CALLCODE with value > balance: handle_insufficient_fund_case forks the failing path, but the main path carries no balance constraint (send_callvalue only transfers for OP_CALL), so a succeeding path is reported as well",
-     "match": {"defect_contains": "callcode-funds"}},
-    {"id": "C09-retcopy-zero-oob", "property": "C09",
-     "what": "RETURNDATACOPY with size 0 and offset > RETURNDATASIZE does not halt (`if size:` guards the bound check)",
-     "match": {"defect_contains": "retcopy-zero"}},
-    {"id": "C09-depth-limit-accountless-call", "property": "C09",
-     "what": "a CALL of an address without account executed at call depth 1024 succeeds (call_unknown pushes 1 and transfers the value without any depth check; the depth guard only runs at the first step of a sub-Exec); derived from the proof obligation, reproduced with 1023 nested self-calls (thorough tier)",
-     "match": {"defect_contains": "depth-nocode"}},
-]
+KNOWN = common.known_for("C09")  # entries live in /verif/known_findings.json
 
 ASSUMPTIONS = [
     "one concrete valuation at a time: a path split of the Python is modelled as the list of reported paths whose constraints hold under the valuation; z3 feasibility answers are taken as exact for the insufficient-funds split (C02 covers `unknown`)",
